@@ -75,6 +75,7 @@ type evRec struct {
 
 // Monitor observes every socket of the server world and judges the properties.
 type Monitor struct {
+	connectReqs map[string]int // Connect requests received, by client|peer
 	K    *Kernel
 	Net  *Net
 	P    *Plan
@@ -138,7 +139,7 @@ func NewMonitor(k *Kernel, n *Net, p *Plan) *Monitor {
 	m := &Monitor{K: k, Net: n, P: p, M: NewModel(perm, ch, life), users: map[string]string{}, denyPeer: map[string]bool{},
 		denyClient: map[string]bool{}, nonces: map[string]*nonceInfo{}, intents: map[string]*Intent{}, reqs: map[string][]*mReq{},
 		evCount: map[string]int{}, states: map[string]struct{}{}, srvWriteFailed: map[string]bool{}, MustMax: 1400,
-		tcpCtl: map[*TCPConn]*ctlStream{}, relayErr: map[string]int64{}, relayWriteErr: map[string]bool{}, orphanDeletes: map[string][]int64{}, leakReported: map[string]bool{}, Refresh0Err: map[string]int{}, dataConns: map[uint32]*TCPConn{}, unboundReported: map[uint32]bool{}, halfOpenReported: map[uint32]bool{}, readCalls: map[string]int{}, anyMsg: map[string]bool{}, ctlEnded: map[string]int64{}}
+		tcpCtl: map[*TCPConn]*ctlStream{}, relayErr: map[string]int64{}, relayWriteErr: map[string]bool{}, orphanDeletes: map[string][]int64{}, leakReported: map[string]bool{}, Refresh0Err: map[string]int{}, dataConns: map[uint32]*TCPConn{}, unboundReported: map[uint32]bool{}, halfOpenReported: map[uint32]bool{}, readCalls: map[string]int{}, connectReqs: map[string]int{}, anyMsg: map[string]bool{}, ctlEnded: map[string]int64{}}
 	m.InboundMTU = p.Cfg.InboundMTU
 	if m.InboundMTU == 0 {
 		m.InboundMTU = 1600
@@ -357,6 +358,11 @@ func (m *Monitor) srvRecv(client string, b []byte, whole bool, now int64) {
 				m.K.Stats.Probe("attrs_after_integrity")
 			}
 			r.Auth, r.AuthWhy, r.User = m.authentic(msg, now)
+			if msg.Type.Method == stun.MethodConnect {
+				if pa, okPA := getXORAddr(msg, attrXORPeerAddress); okPA {
+					m.connectReqs[client+"|"+ustr(pa)]++
+				}
+			}
 			h := md5.Sum(b)
 			r.Intent = m.intents[client+"|"+hex.EncodeToString(h[:])]
 			k := client + "|" + string(msg.TransactionID[:])
